@@ -4,8 +4,12 @@ func init() {
 	register("C09", &propInfo{
 		Explanation: "The twelve generated coordinate-keyed map types implement the fast/slow typestate on all paths: FM.MODE every element access of fastMap is dominated by fastMap != nil and every access of slowMap by fastMap == nil or a preceding fastToSlow(); FM.COLLIDE a cell read from fastMap[hash] reaches a hit result or a delete only through the key-match edge, and an update only through the key-match or absent edge; FM.HASH the probe is hashFor...(key parameter); FM.SWITCH only fastToSlow assigns the mode fields, it copies every cell and nils fastMap after the loop; FM.ZERO the hash canonicalises zero so that == keys hash equally. MI: Mesh.faces is modified only by Add/Remove, the vertex index is published only by the lazy builder, a face is appended to the index only where it is known to be absent. RF: methods returning a derived mesh read their receiver.",
 		Trusted:     []string{"go/ssa of the uninstantiated generic method bodies (prog.FuncValue)", "dominating-edge facts and edge-deletion reachability"},
-		Fixtures:    []string{"fm"},
+		Fixtures:    []string{"fm", "g"},
 		SelfTest: []Mutation{
+			{Name: "first-vertex flag of Mesh.Min cleared once per face", File: "model3d/mesh.go",
+				Old: "\t\t\tif !firstFlag {\n\t\t\t\tresult = c\n\t\t\t\tfirstFlag = true\n\t\t\t} else {\n\t\t\t\tresult = result.Min(c)\n\t\t\t}\n\t\t}\n", New: "\t\t\tif !firstFlag {\n\t\t\t\tresult = c\n\t\t\t} else {\n\t\t\t\tresult = result.Min(c)\n\t\t\t}\n\t\t}\n\t\tfirstFlag = true\n", Rule: "FIRSTFLAG", Expect: "Min"},
+			{Name: "AddMesh copies faces directly when the OTHER mesh has no index", File: "model3d/mesh.go",
+				Old: "func (m *Mesh) AddMesh(m1 *Mesh) {\n\tm1.Iterate(m.Add)\n}", New: "func (m *Mesh) AddMesh(m1 *Mesh) {\n\tif m1.getVertexToFaceOrNil() == nil {\n\t\tfor f := range m1.faces {\n\t\t\tm.faces[f] = true\n\t\t}\n\t\treturn\n\t}\n\tm1.Iterate(m.Add)\n}", Rule: "MI.WRITERS", Expect: "AddMesh"},
 			{Name: "FlattenBase overwrites the index entry of the target vertex (defect repaired)", File: "model3d/mesh_ops.go",
 				Old: "\t\tv2t.Store(newC, merged)\n", New: "\t\tv2t.Store(newC, v2t.Value(c))\n", Rule: "MI.PATCH", Expect: "FlattenBase"},
 			{Name: "InvertNormals iterates the new mesh (defect F1)", File: "model3d/mesh.go",
@@ -42,6 +46,9 @@ func init() {
 			c.floor("FM.ZERO", 2)
 			c.runMeshRules("MI", "model3d")
 			c.runMeshRules("MI", "model2d")
+			// bounds of the face set: the "nothing seen yet" flag is cleared where the first vertex is taken
+			c.runFirstFlag("FIRSTFLAG", append(c.libPkgs()[:2:2], c.fixturePkg("g")), c.fileFilter("mesh.go"))
+			c.floor("FIRSTFLAG", 2)
 			c.floor("MI.WRITERS", 5)
 			c.floor("MI.OWNER", 2)
 			c.floor("MI.DEDUP", 2)
